@@ -123,10 +123,12 @@ def make_picker(rng, mode):
 
 # ---------------------------------------------------------------- compile + read
 
-def compile_jobs(tools, jobs, **kw):
-    """jobs: [{"id", "src", "opts"}] -> {id: result}; adds want ir+validate"""
-    js = [{"id": j["id"], "src": j["src"], "want": ["ir", "validate"], "opts": j.get("opts", {})} for j in jobs]
-    return nagarun.parallel_batches(tools["glsldrive"], "compile", js, per_job_timeout=30.0, chunk=16, **kw)
+def compile_jobs(tools, jobs, want=("ir", "validate"), **kw):
+    """jobs: [{"id", "src", "opts"}] -> {id: result}; by default asks for the IR dump and the validator's verdict"""
+    js = [{"id": j["id"], "src": j["src"], "want": list(want), "opts": j.get("opts", {})} for j in jobs]
+    kw.setdefault("chunk", 64)
+    kw.setdefault("workers", 2)
+    return nagarun.parallel_batches(tools["glsldrive"], "compile", js, per_job_timeout=30.0, **kw)
 
 
 def read_glsl(text):
